@@ -1,6 +1,8 @@
 import YarlProofs.C04
 import YarlProofs.C04General
 import YarlProofs.C07Recompose
+import YarlProofs.C03Netloc
+import YarlProofs.C04Idn
 /-!
   C04Headline.lean — AUDIT LAYER for property C04.
 
@@ -17,10 +19,15 @@ import YarlProofs.C07Recompose
   and escapes `%XY` (upper-case hex) of bytes that are ≥ 128, or not safe, or protected (`t.prot`).
   `CanonNetloc e sc nl`: `nl = []`, or `nl = authText user pw host port` = `[user[:password]@]host[:port]` with
   `UserInfoOK` (user non-empty, user/password `Canon` for REQUOTER), `HostFix` (a host `_encode_host` maps to
-  itself: hostFix_basic / hostFix_ipv4 / hostFix_ipv6) and `PortOK` (≤ 65535, not the scheme default).
+  itself: every non-empty lower-case host text without ':' — reg-names, also ending in a digit or a dot, IPv4 —,
+  compressed IPv6 with or without zone id, sane A-labels: C04_headline_lower_case_host_families) and `PortOK`
+  (≤ 65535, not the scheme default).
+  KNOWN FINDINGS of C04 (strings canonical in the words of the property that ARE changed; each is a theorem below):
+  F-C04-empty-path, F-C04-single-slash, F-C04-empty-delims, F-C04-empty-authority, F-C04-colon-password.
 -/
 set_option linter.unusedVariables false
 namespace Yarl
+open FixLemmas NetShape HostLemmas NetlocLemmas Idn
 
 /-! ## Sentence 1 — "For every string that is already canonical - … - str(URL(s)) == s." -/
 
@@ -31,6 +38,8 @@ theorem C04_headline_canonical_string_unchanged (e : Env) (scheme netloc path qu
     -- "lower-case scheme": empty, or non-empty lower-case scheme characters      (needed: C04_general_scheme_needed)
     (h_scheme : SchemeOK' scheme)
     -- "lower-case … host", "no default port" (+ canonical userinfo)   (C04_general_host_needed, C04_general_default_port_needed)
+    -- the userinfo clause (`UserInfoOK`: no literal ':' in the password) is KNOWN FINDING F-C04-colon-password
+    -- (`C04_headline_fails_for_colon_in_password` below)
     (h_netloc : CanonNetloc e scheme netloc)
     -- "only characters that are legal literally in each component, and upper-case escapes only for characters that
     -- must be escaped there (or, for … reserved delimiters, may be)"                   (C04_general_escape_needed)
@@ -41,8 +50,8 @@ theorem C04_headline_canonical_string_unchanged (e : Env) (scheme netloc path qu
     (h_nodots : netloc ≠ [] → NoDotSegments path)
     -- well-formedness of the 5-tuple: under an authority the path is empty or rooted  (C04_general_rooted_needed)
     (h_rooted : netloc ≠ [] → (path = [] ∨ path.head? = some 47))
-    -- NOT in the property text: an empty path before '?'/'#' under an authority is written "/"
-    -- (C04_general_empty_path_needed; `C04_headline_fails_for_empty_path` below)
+    -- NOT in the property text — KNOWN FINDING F-C04-empty-path: an empty path before '?'/'#' under an authority is
+    -- written "/" (C04_general_empty_path_needed; `C04_headline_fails_for_empty_path` below)
     (h_nonempty : netloc ≠ [] → path = [] → query = [] ∧ fragment = [])
     -- well-formedness of the 5-tuple: a scheme-less, authority-less path whose text before ':' reads as a scheme IS
     -- a scheme (C04_general_first_segment_needed; the STRING "a:b" is still a fixed point, as scheme "a" + path "b")
@@ -75,17 +84,102 @@ theorem C04_headline_every_canonical_string (e : Env) (s : Str) (p : Parts)
     (h_clean : cleanUrl s = s)
     -- the scheme is WRITTEN lower-case in `s` (the parsed scheme is lowered already)
     (h_lower : (splitScheme s).1 = [] ∨ lower (s.takeWhile (· ≠ 58)) = s.takeWhile (· ≠ 58))
-    -- no empty '?'/'#' delimiter, no "//" of an empty authority that unsplit would not write, "//" after a
-    -- `uses_authority` scheme (C07_recomposable_*_counterexample; `C04_headline_fails_for_dropped_delimiters` below)
+    -- no empty '?'/'#' delimiter (KNOWN FINDING F-C04-empty-delims, `C04_headline_fails_for_empty_delims`), no "//" of
+    -- an empty authority that unsplit would not write (F-C04-empty-authority, `…_fails_for_empty_authority`), "//"
+    -- after a `uses_authority` scheme (F-C04-single-slash, `…_fails_for_single_slash`)
+    -- (C07_recomposable_*_counterexample; `C04_headline_fails_for_dropped_delimiters` below)
     (h_recomp : Recomposable s) :
     C04_roundTrip e s = .ok s := by
   have hs := C07_unsplit_split_id e.o s p h_parse h_recomp h_clean h_lower
   have := C04_roundTrip_general e p.scheme p.netloc p.path p.query p.fragment h_canon
   rwa [canonText, hs] at this
 
+/-! ### "lower-case … host": which hosts are covered (closes GAPS 1 except IPvFuture and the empty host) -/
+
+/-- "lower-case … host" is `HostFix o h` (= `_encode_host(h)` is `h` again, in brackets when it contains ':').  It
+    holds for EVERY non-empty lower-case host text without ':' (`hostChar` = visible ASCII, no upper-case letter,
+    none of `/ ? # : @ [ ]`: reg-names — also ending in a digit such as "h1", "example.com1" —, IPv4 literals), for
+    such a text followed by a dot, for the compressed lower-case text `ipv6ToStr h8` of an IPv6 address without and
+    with a zone id (`textChar` = visible ASCII, none of `/ ? # @ [ ]`), and for every sane A-label text
+    (`IdnaAnswerSane a`, C16Idn.lean: non-empty and the library's `NOT_REG_NAME` screen finds nothing — "xn--…" hosts;
+    no assumption about the `idna` package: the text is ASCII and never reaches IDNA).
+    Cites C03_hostFix_lower, C03_hostFix_trailing_dot, C03_hostFix_ipv6_zone (C03Netloc.lean), hostFix_ipv6
+    (Lemmas/FixLemmas.lean), Idn.hostFix_sane (C16Idn.lean). -/
+theorem C04_headline_lower_case_host_families (o : Oracles) :
+    (∀ h : Str, h ≠ [] → (∀ c ∈ h, hostChar c = true) → HostFix o h) ∧
+    (∀ h : Str, (∀ c ∈ h, hostChar c = true) → HostFix o (h ++ [46])) ∧
+    (∀ h8 : List Nat, h8.length = 8 → (∀ x ∈ h8, x < 65536) → HostFix o (ipv6ToStr h8)) ∧
+    (∀ (h8 : List Nat) (z : Str), h8.length = 8 → (∀ x ∈ h8, x < 65536) → (∀ c ∈ z, textChar c = true) →
+      HostFix o (ipv6ToStr h8 ++ 37 :: z)) ∧
+    (∀ a : Str, IdnaAnswerSane a → HostFix o a) :=
+  ⟨fun _ hne hch => C03_hostFix_lower o hne hch, fun _ hch => C03_hostFix_trailing_dot o hch,
+   fun h8 hl hx => hostFix_ipv6 o h8 hl hx,
+   fun h8 z hl hx hz => C03_hostFix_ipv6_zone o h8 hl hx z hz, fun _ ha => hostFix_sane o ha⟩
+
+/-- The identity for a string with an authority, written out as text: `scheme://[user[:password]@]host[:port]path
+    [?query][#fragment]` (`composeUrl`) and the network-path reference `//[user[:password]@]host[:port]path…` are
+    parsed into exactly these components and printed back unchanged, for ANY host of the families above.
+    `CompOK b path query fragment`: path empty or rooted, path / query / fragment `Canon` for their requoters, no dot
+    segment (`46 ∈ path → normalizePath path = path`), path not empty in front of a query or fragment.
+    (C04_identity_authority_of_general, C04_identity_network_path_authority, C04General.lean.) -/
+theorem C04_headline_canonical_authority_unchanged (e : Env) (scheme : Str) (user pw : Option Str) (h : Str)
+    (port : Option Nat) (path query fragment : Str)
+    (hu : UserInfoOK e.b user pw)                  -- canonical userinfo; no literal ':' in the password: F-C04-colon-password
+    (hh : HostFix e.o h)                           -- "lower-case … host", see the families above
+    (hc : CompOK e.b path query fragment) :        -- "only characters that are legal literally …", "no dot segments",
+                                                   -- not empty before '?'/'#': F-C04-empty-path
+    (SchemeOK scheme →                             -- "lower-case scheme" (non-empty)
+      PortOK scheme port →                         -- "no default port" (and ≤ 65535)
+      ∃ u, encodeUrl e (composeUrl scheme (authText user pw h port) path query fragment) = .ok u ∧
+        str e u = .ok (composeUrl scheme (authText user pw h port) path query fragment) ∧
+        u.scheme = scheme ∧ u.netloc = authText user pw h port ∧ u.path = path ∧ u.query = query ∧
+        u.fragment = fragment) ∧
+    ((∀ p, port = some p → p ≤ 65535) →            -- no scheme, so no default port
+      ∃ u, encodeUrl e ([47, 47] ++ authText user pw h port ++ path ++ qPart query ++ fPart fragment) = .ok u ∧
+        str e u = .ok ([47, 47] ++ authText user pw h port ++ path ++ qPart query ++ fPart fragment) ∧
+        u.scheme = [] ∧ u.netloc = authText user pw h port ∧ u.path = path ∧ u.query = query ∧
+        u.fragment = fragment) :=
+  ⟨fun hs hp => C04_identity_authority_of_general e scheme user pw h port path query fragment hs hu hh hp hc,
+   fun hp => C04_identity_network_path_authority e user pw h port path query fragment hu hh hp hc⟩
+
+/-- A-label / IDN hosts (GAPS 1): the same identity for a sane A-label host `a`, stated on its own; and what the
+    library itself stores for a NON-ASCII host `h` is such a text PROVIDED the answers of the `idna` package for `h`
+    are sane (`IdnaSaneAt e.o h`: an ASSUMPTION about a third-party package, C16Idn.lean — the only place where
+    the package enters C04).  (C04_idn_identity_general, C04_idn_identity_network_path, C04Idn.lean.) -/
+theorem C04_headline_idn_host_unchanged (e : Env) (scheme : Str) (user pw : Option Str) (a : Str)
+    (port : Option Nat) (path query fragment : Str)
+    (hu : UserInfoOK e.b user pw)                  -- canonical userinfo (F-C04-colon-password)
+    (ha : IdnaAnswerSane a)                        -- the host text: non-empty lower-case reg-name text ("xn--…")
+    (hc : CompOK e.b path query fragment) :        -- as above (F-C04-empty-path)
+    (SchemeOK scheme → PortOK scheme port →
+      ∃ u, encodeUrl e (composeUrl scheme (authText user pw a port) path query fragment) = .ok u ∧
+        str e u = .ok (composeUrl scheme (authText user pw a port) path query fragment) ∧
+        u.scheme = scheme ∧ u.netloc = authText user pw a port ∧ u.path = path ∧ u.query = query ∧
+        u.fragment = fragment) ∧
+    ((∀ p, port = some p → p ≤ 65535) →
+      ∃ u, encodeUrl e ([47, 47] ++ authText user pw a port ++ path ++ qPart query ++ fPart fragment) = .ok u ∧
+        str e u = .ok ([47, 47] ++ authText user pw a port ++ path ++ qPart query ++ fPart fragment) ∧
+        u.scheme = [] ∧ u.netloc = authText user pw a port ∧ u.path = path ∧ u.query = query ∧
+        u.fragment = fragment) ∧
+    (∀ h, IdnaSaneAt e.o h → idnaEncode e.o h = .ok a → IdnaAnswerSane a) :=
+  ⟨fun hs hp => C04_idn_identity_general e scheme user pw a port path query fragment hs hu ha hp hc,
+   fun hp => C04_idn_identity_network_path e user pw a port path query fragment hu ha hp hc,
+   fun _ hs he => idnaEncode_sane hs he⟩
+
+/-- the assumption cannot be dropped for the library's OWN output: with an `idna` package that answered "XN--A" for
+    the host of `C16_idn_input` ("http://é/p") the constructor stores that, and str(URL("http://XN--A/p")) is
+    "http://xn--a/p".  (A hypothetical package, not a finding; "XN--A" is not `IdnaAnswerSane`.) -/
+theorem C04_headline_idn_fails_for_upper_case_answer :
+    let e : Env := { b := .c, o := C16_idn_hostile "XN--A".toStr }
+    (encodeUrl e C16_idn_input).bind (str e) = .ok "http://XN--A/p".toStr ∧
+    (encodeUrl e "http://XN--A/p".toStr).bind (str e) = .ok "http://xn--a/p".toStr :=
+  C04_idn_needs_lower
+
 /-! ### strings that look canonical in the words of the property but are changed -/
 
-/-- "http://h?q" ↦ "http://h/?q", "//h?q" ↦ "//h/?q", "//h#f" ↦ "//h/#f" (guard `h_nonempty`) -/
+/-- KNOWN FINDING F-C04-empty-path (witness URL('http://h?q')): an empty path under an authority is written as "/" in
+    front of a query or fragment: "http://h?q" ↦ "http://h/?q", "//h?q" ↦ "//h/?q", "//h#f" ↦ "//h/#f"
+    (guard `h_nonempty`) -/
 theorem C04_headline_fails_for_empty_path (b : Backend) :
     C04_roundTrip ⟨b, Oracles.empty⟩ "http://h?q".toStr = .ok "http://h/?q".toStr ∧
     C04_roundTrip ⟨b, Oracles.empty⟩ "//h?q".toStr = .ok "//h/?q".toStr ∧
@@ -93,8 +187,9 @@ theorem C04_headline_fails_for_empty_path (b : Backend) :
   ⟨(C04_general_empty_path_needed b).2.2.2.2.1, (C04_general_empty_path_needed b).2.2.2.2.2.1,
     (C04_general_empty_path_needed b).2.2.2.2.2.2⟩
 
-/-- F-C03-rootless seen from C04: "file:a/b" ↦ "file:///a/b", "file:/p" ↦ "file:///p", "http:/p" ↦ "http:///p"
-    (guard `h_authority_scheme` / `Recomposable.authority_scheme`) -/
+/-- F-C03-rootless seen from C04: "file:a/b" ↦ "file:///a/b" (guard `h_authority_scheme`), and KNOWN FINDING
+    F-C04-single-slash (same root): "file:/p" ↦ "file:///p", "http:/p" ↦ "http:///p"
+    (guard `Recomposable.authority_scheme`; on its own: `C04_headline_fails_for_single_slash`) -/
 theorem C04_headline_fails_for_authority_scheme (b : Backend) :
     C04_roundTrip ⟨b, Oracles.empty⟩ "file:a/b".toStr = .ok "file:///a/b".toStr ∧
     C04_roundTrip ⟨b, Oracles.empty⟩ "file:/p".toStr = .ok "file:///p".toStr ∧
@@ -102,16 +197,50 @@ theorem C04_headline_fails_for_authority_scheme (b : Backend) :
   ⟨(C04_general_authority_scheme_needed b).2.2.2.2, (C04_authority_scheme_single_slash_not_fixed b).1,
     (C04_authority_scheme_single_slash_not_fixed b).2.1⟩
 
-/-- NEW at URL level (guard `Recomposable`): an empty query / fragment delimiter and the "//" of an empty authority
-    are dropped: "http://h/a?" ↦ "http://h/a", "http://h/a#" ↦ "http://h/a", "x:///p" ↦ "x:/p" -/
+/-- At URL level (guard `Recomposable`): an empty query / fragment delimiter — KNOWN FINDING F-C04-empty-delims — and
+    the "//" of an empty authority — KNOWN FINDING F-C04-empty-authority — are dropped: "http://h/a?" ↦ "http://h/a",
+    "http://h/a#" ↦ "http://h/a", "x:///p" ↦ "x:/p".  Class by class with all recorded witnesses: the next three
+    theorems. -/
 theorem C04_headline_fails_for_dropped_delimiters (b : Backend) :
     C04_roundTrip ⟨b, Oracles.empty⟩ "http://h/a?".toStr = .ok "http://h/a".toStr ∧
     C04_roundTrip ⟨b, Oracles.empty⟩ "http://h/a#".toStr = .ok "http://h/a".toStr ∧
     C04_roundTrip ⟨b, Oracles.empty⟩ "x:///p".toStr = .ok "x:/p".toStr := by
   cases b <;> decide +kernel
 
-/-- NEW: a literal ':' inside the password is legal RFC 3986 userinfo but is escaped (REQUOTER keeps no ':' literal,
-    see `C04_headline_no_over_encoding`): "http://u:p:w@h/" ↦ "http://u:p%3Aw@h/" (guard `UserInfoOK` in `h_netloc`) -/
+/-- KNOWN FINDING F-C04-empty-delims (witness URL('http://h/a?')): an empty '?' or '#' delimiter is dropped —
+    "http://h/a?" ↦ "http://h/a", "http://h/a#" ↦ "http://h/a", "/p?#" ↦ "/p".  The strings satisfy every condition
+    the property lists; the URL value is the same (guard `Recomposable.query_delim` / `.fragment_delim`). -/
+theorem C04_headline_fails_for_empty_delims (b : Backend) :
+    C04_roundTrip ⟨b, Oracles.empty⟩ "http://h/a?".toStr = .ok "http://h/a".toStr ∧
+    C04_roundTrip ⟨b, Oracles.empty⟩ "http://h/a#".toStr = .ok "http://h/a".toStr ∧
+    C04_roundTrip ⟨b, Oracles.empty⟩ "/p?#".toStr = .ok "/p".toStr := by
+  cases b <;> decide +kernel
+
+/-- KNOWN FINDING F-C04-empty-authority (witness URL('x:///p')): the "//" of an empty authority is dropped for a
+    scheme outside urllib's `uses_netloc` (`Gen.usesAuthority`) — both recorded witnesses: "x:///p" ↦ "x:/p" and
+    "x://" ↦ "x:"; the results are fixed points (guard `Recomposable.authority_marker`). -/
+theorem C04_headline_fails_for_empty_authority (b : Backend) :
+    Gen.usesAuthority.contains "x".toStr = false ∧
+    C04_roundTrip ⟨b, Oracles.empty⟩ "x:///p".toStr = .ok "x:/p".toStr ∧
+    C04_roundTrip ⟨b, Oracles.empty⟩ "x://".toStr = .ok "x:".toStr ∧
+    C04_roundTrip ⟨b, Oracles.empty⟩ "x:/p".toStr = .ok "x:/p".toStr ∧
+    C04_roundTrip ⟨b, Oracles.empty⟩ "x:".toStr = .ok "x:".toStr := by
+  cases b <;> decide +kernel
+
+/-- KNOWN FINDING F-C04-single-slash (witness URL('file:/p'); same root as F-C03-rootless): for a scheme in urllib's
+    `uses_netloc` an absent authority is written as an empty one — both recorded witnesses: "file:/p" ↦ "file:///p"
+    and "http:/p" ↦ "http:///p"; the canonical spelling "file:///p" is a fixed point
+    (guard `Recomposable.authority_scheme`). -/
+theorem C04_headline_fails_for_single_slash (b : Backend) :
+    C04_roundTrip ⟨b, Oracles.empty⟩ "file:/p".toStr = .ok "file:///p".toStr ∧
+    C04_roundTrip ⟨b, Oracles.empty⟩ "http:/p".toStr = .ok "http:///p".toStr ∧
+    canonText "file".toStr [] "/p".toStr [] [] = "file:///p".toStr ∧
+    C04_roundTrip ⟨b, Oracles.empty⟩ "file:///p".toStr = .ok "file:///p".toStr :=
+  C04_authority_scheme_single_slash_not_fixed b
+
+/-- KNOWN FINDING F-C04-colon-password (witness URL('http://u:p:w@h/')): a literal ':' inside the password is legal
+    RFC 3986 userinfo but is escaped (REQUOTER keeps no ':' literal, see `C04_headline_no_over_encoding`; documented
+    deviation): "http://u:p:w@h/" ↦ "http://u:p%3Aw@h/" (guard `UserInfoOK` in `h_netloc`) -/
 theorem C04_headline_fails_for_colon_in_password (b : Backend) :
     C04_roundTrip ⟨b, Oracles.empty⟩ "http://u:p:w@h/".toStr = .ok "http://u:p%3Aw@h/".toStr := by
   cases b <;> decide +kernel
@@ -161,25 +290,61 @@ example (b : Backend) : C04_roundTrip ⟨b, Oracles.empty⟩ "http://u:p%40w@[20
   obtain ⟨_, _, _, ⟨u, h1, h2, _⟩, _⟩ := C04_general_examples b
   unfold C04_roundTrip; rw [h1]; exact h2
 
+-- hosts of GAPS 1 that had no identity theorem: a reg-name ending in a digit, a trailing dot, IPv6 with a zone id
+example (b : Backend) : ∃ u, encodeUrl ⟨b, Oracles.empty⟩ "http://example.com1/p".toStr = .ok u ∧
+    str ⟨b, Oracles.empty⟩ u = .ok "http://example.com1/p".toStr := by
+  obtain ⟨u, h1, h2, _⟩ := (C04_headline_canonical_authority_unchanged ⟨b, Oracles.empty⟩ "http".toStr none none
+    "example.com1".toStr none "/p".toStr [] [] (userInfoOK_none _)
+    ((C04_headline_lower_case_host_families _).1 _ (by decide) (by decide))
+    (compOKB_sound (by cases b <;> decide +kernel))).1 (by decide) (IdGen.portOK_none _)
+  exact ⟨u, h1, h2⟩
+example (b : Backend) : ∃ u, encodeUrl ⟨b, Oracles.empty⟩ "//example.com./p".toStr = .ok u ∧
+    str ⟨b, Oracles.empty⟩ u = .ok "//example.com./p".toStr := by
+  obtain ⟨u, h1, h2, _⟩ := (C04_headline_canonical_authority_unchanged ⟨b, Oracles.empty⟩ [] none none
+    ("example.com".toStr ++ [46]) none "/p".toStr [] [] (userInfoOK_none _)
+    ((C04_headline_lower_case_host_families _).2.1 _ (by decide))
+    (compOKB_sound (by cases b <;> decide +kernel))).2 (fun p hp => by cases hp)
+  exact ⟨u, h1, h2⟩
+example (b : Backend) : ∃ u, encodeUrl ⟨b, Oracles.empty⟩ "http://[fe80::1%eth0]:8080/p".toStr = .ok u ∧
+    str ⟨b, Oracles.empty⟩ u = .ok "http://[fe80::1%eth0]:8080/p".toStr := by
+  obtain ⟨u, h1, h2, _⟩ := (C04_headline_canonical_authority_unchanged ⟨b, Oracles.empty⟩ "http".toStr none none
+    (ipv6ToStr [0xfe80, 0, 0, 0, 0, 0, 0, 1] ++ 37 :: "eth0".toStr) (some 8080) "/p".toStr [] [] (userInfoOK_none _)
+    ((C04_headline_lower_case_host_families _).2.2.2.1 _ _ rfl (by decide) (by decide))
+    (compOKB_sound (by cases b <;> decide +kernel))).1 (by decide)
+    ⟨fun p hp => (by cases hp; decide), fun p hp => (by cases hp; decide)⟩
+  have hc : composeUrl "http".toStr (authText none none (ipv6ToStr [0xfe80, 0, 0, 0, 0, 0, 0, 1] ++ 37 :: "eth0".toStr)
+      (some 8080)) "/p".toStr [] [] = "http://[fe80::1%eth0]:8080/p".toStr := by decide +kernel
+  rw [hc] at h1 h2
+  exact ⟨u, h1, h2⟩
 /-
 GAPS:
- 1. HOSTS.  "lower-case … host" is `HostFix`, proved for: lower-case reg-names NOT ending in a digit
-    (hostFix_basic), IPv4 literals (hostFix_ipv4), compressed lower-case IPv6 literals without zone
-    (hostFix_ipv6).  No identity theorem for: A-label / IDN hosts ("xn--…", needs IDNA oracle facts), reg-names
-    ending in a digit ("h1", "example.com1"), IPv6 with a zone id, bracketed non-IPv6 hosts (IPvFuture), a host
-    with a trailing dot, the empty host with a port (":80").
+ 1. PARTLY CLOSED by C03_hostFix_lower, C03_hostFix_trailing_dot, C03_hostFix_ipv6_zone (C03Netloc.lean) and
+    Idn.hostFix_sane / C04_idn_identity_general / C04_idn_identity_network_path (C16Idn.lean, C04Idn.lean), see
+    C04_headline_lower_case_host_families, C04_headline_canonical_authority_unchanged,
+    C04_headline_idn_host_unchanged.  "lower-case … host" (`HostFix`) and hence the identity are now proved for
+    EVERY non-empty lower-case host text without ':' (reg-names incl. those ending in a digit — "h1",
+    "example.com1" —, IPv4), a trailing dot, compressed lower-case IPv6 without and WITH a zone id, and A-label
+    hosts ("xn--…": any text with `IdnaAnswerSane`, no assumption about the `idna` package; that the library's own
+    answer for a non-ASCII host is such a text is the ASSUMPTION `IdnaSaneAt`, C16Idn.lean, not proved —
+    C04_headline_idn_fails_for_upper_case_answer shows what a hostile package would do).
+    STILL no identity theorem for: bracketed non-IPv6 hosts (IPvFuture; `HostFix.notV` excludes a host with ':'
+    that starts with 'v'), the empty host with a port (":80"; `HostFix` asks a non-empty host).
  2. "For every string": C04_headline_every_canonical_string (new) is string-quantified but asks the caller for
     `splitUrl e.o s = .ok p` and `CanonString` of the PARSED parts; there is no decision procedure / sound Boolean
     checker for the whole of `CanonString` (C04_canonClauses covers the eight component clauses, not
     `CanonNetloc`), so instantiating it on a concrete string still needs a hand-made `authText` decomposition.
  3. Strings canonical in the words of the property but changed by str(URL(s)) — the property text has no exception
-    for them: empty path before '?'/'#' under an authority (C04_headline_fails_for_empty_path); authority-taking
-    scheme without "//" (C04_headline_fails_for_authority_scheme, F-C03-rootless); empty '?' / '#' delimiters and
-    the "//" of an empty authority for other schemes (C04_headline_fails_for_dropped_delimiters).  Only the second
-    is in KNOWN_FINDINGS (under C03).
+    for them.  ALL are now in KNOWN_FINDINGS.jsonl and each is a theorem here: empty path before '?'/'#' under an
+    authority (F-C04-empty-path, C04_headline_fails_for_empty_path); authority-taking scheme without "//"
+    (F-C04-single-slash, C04_headline_fails_for_single_slash; with a rootless path F-C03-rootless,
+    C04_headline_fails_for_authority_scheme); empty '?' / '#' delimiters (F-C04-empty-delims,
+    C04_headline_fails_for_empty_delims); the "//" of an empty authority for other schemes (F-C04-empty-authority,
+    C04_headline_fails_for_empty_authority; both recorded witnesses "x:///p" and "x://").  They remain GUARDS of the
+    identity theorems (`h_nonempty`, `h_authority_scheme`, `Recomposable`), i.e. the sentence "for every string that
+    is already canonical" is proved only outside these five classes (with item 4).
  4. Userinfo: `UserInfoOK` requires REQUOTER-canonical text, i.e. no literal ':' in the password — "u:p:w@h" is
-    legal RFC 3986 userinfo but is rewritten (C04_headline_fails_for_colon_in_password, new; not in
-    KNOWN_FINDINGS) — and a NON-EMPTY user when a user is present: ":pw@h" evaluates to a fixed point and "@h"
+    legal RFC 3986 userinfo but is rewritten (C04_headline_fails_for_colon_in_password; now KNOWN FINDING
+    F-C04-colon-password) — and a NON-EMPTY user when a user is present: ":pw@h" evaluates to a fixed point and "@h"
     to "h", but no theorem covers the empty user.
  5. "neither over-encodes nor over-decodes" is proved as table identities (C04_policy, C04_policy_protected) and
     as the identity on canonical text; there is no CONVERSE at URL level ("if str(URL(s)) == s then s is canonical"),
